@@ -108,3 +108,13 @@ FUNCTIONS += [K + "Sum._omit_index", K + "Sum._sum_contrast", K + "Sum.code_with
 
 ASSUMPTIONS = ['numpy externals assumed: eye, zeros, ones, empty, vstack, column_stack, basic slicing, region assignment (see vf/pyvc/arrays.py)',
                'str(level) is an uninterpreted function of the level; list.index is an uninterpreted function with the first-occurrence axioms']
+
+
+# ---- C / T / S / I: argument plumbing of the formula-level helpers (C13, C16) ------------------------------------------------
+import formulae.transforms as _tr                                            # noqa: E402
+TR = "formulae.transforms."
+REG.declare_class(K + "CategoricalBox", {"_data": "any", "_contrast": "any", "_levels": "any"})
+for _q in (K + "Sum.__init__", K + "Treatment.__init__", K + "CategoricalBox.__init__"):
+    REG.inline.add(_q)
+REG.contract(TR + "I", params={"x": "any"}, returns="any", tags=["C12", "C16"], ensures=["result == x"])
+FUNCTIONS += [TR + "I"]
